@@ -20,6 +20,8 @@ import YaegiVerif.Model.Share
     nil-deref-map-store      `m[k] = *p`                                                        F04-10, repaired by 93fb945
     recv-assign-var / -elem  `x = <-c`, `a[i] = <-c`, `s.f = <-c`, `*p = <-c`                      F08-7, repaired by 177a151
     assert2-define-in-loop / assert2-fails   `v, ok := x.(T)` in a loop body / a failing assertion   F04-14, repaired by 2fe0a18
+    complit-assign-var / complit   `p = P{p.Y, p.X}`: a literal with expression operands (that may read the destination);
+                             never diverged on the repository's own history — the shape of seeded change C04-3
     range-ptr-array          `for i, v := range p` with p a pointer to an array (shape: source is not decidable
                              without types; the harness labels it)                            F04-7, repaired by da35a0b
 -/
@@ -64,6 +66,7 @@ def sopShape (inBody : Bool) : SOp → Option String
   | .append _ _ _ args _ _ _ => if aliasArgs args then some "append-alias-args" else none
   | .lookup2 isDef _ _ _ _ _ _ _ => if isDef && inBody then some "lookup2-define-in-loop" else none
   | .mapSet _ _ r => if isDerefLoad r then some "nil-deref-map-store" else none
+  | .complit isDef l _ _ _ => if !isDef && isVarL l then some "complit-assign-var" else some "complit"
   | .recv isDef l _ => if isDef then none else if isVarL l then some "recv-assign-var" else some "recv-assign-elem"
   | .assert2 isDef _ _ _ succ _ _ _ =>
     if isDef && inBody then some "assert2-define-in-loop" else if !succ then some "assert2-fails" else none
